@@ -301,6 +301,10 @@ func c20Behaviour(t *testing.T, kind string, seed uint64) rt.Result {
 			}
 			w.Srv.Close()
 			w.Settle()
+			n := dialsTo(a) // nothing may happen for the peer from here on, whatever is called
+			if m := w.Mon(a); m != nil {
+				m.Seal("Close") // any plugin callback from now on is reported
+			}
 			done := make(chan error, 1)
 			go func() { done <- w.Srv.Serve(nil) }()
 			w.Settle()
@@ -313,10 +317,9 @@ func c20Behaviour(t *testing.T, kind string, seed uint64) rt.Result {
 				w.Violate("Serve after Close did not return")
 				w.Srv.Close()
 			}
-			n := dialsTo(a)
 			time.Sleep(20 * time.Second)
-			if dialsTo(a) != n {
-				w.Violate("peers operate after Close (Serve after Close started them)")
+			if m := dialsTo(a); m != n {
+				w.Violate("peers operate after Close: %d outbound attempt(s) after Close had returned (Serve after Close started them)", m-n)
 			}
 		case "duplicate-add":
 			pa := hz.StdPeer(a.String())
